@@ -147,3 +147,49 @@ def apdu_switch(layout, rng):
             ops.append(f"dec {s['name']} {C.hexs(b)}")
             want.append(f"ok {V.show(layout, {'k': 'struct', 'name': s['name']}, v)} rem=- reenc={C.hexs(b)}")
     return ops, want
+
+
+# ------------------------------------------------------------------ nested containers (C13, C14)
+def tagged_suffix(t):
+    """the tagged fields of struct t form a suffix of its field list (so that their encodings can be rearranged)"""
+    fs = t["fields"]
+    ft = next((i for i, f in enumerate(fs) if f["tag"] is not None), None)
+    return ft is not None and all(f["tag"] is not None for f in fs[ft:])
+
+
+def inner_struct(layout, f):
+    ty = f["ty"]["t"] if f["ty"]["k"] == "opt" else f["ty"]
+    return layout["by_name"][ty["name"]] if ty["k"] == "struct" else None
+
+
+def sites(layout, t, v, depth):
+    """paths [(struct, field, value of that struct)] to nested structs reachable through tagged fields that are present"""
+    for f in t["fields"]:
+        u = inner_struct(layout, f)
+        if u is None or f["tag"] is None or v[f["name"]] is None:
+            continue
+        yield [(t, f, v)], u, v[f["name"]]
+        if depth > 1:
+            for path, w, wv in sites(layout, u, v[f["name"]], depth - 1):
+                yield [(t, f, v)] + path, w, wv
+
+
+def wrap(layout, path, inner_body):
+    """body of the outermost struct of `path` with the innermost container's body replaced by inner_body"""
+    b = inner_body
+    for t, f, v in reversed(path):
+        try:
+            fb = R.tag_bytes(f["tag"]) + R.length_prefix(f["length"], b) + b
+            b = b"".join(fb if g is f else R.field_bytes(layout, g, g["ty"], v[g["name"]]) for g in t["fields"])
+        except R.NotRepresentable:
+            return None
+    return b
+
+
+def groups_of(layout, u, uv):
+    """(bytes of the positional part, [(field, bytes)] of the present tagged fields) of value uv of struct u"""
+    fs = u["fields"]
+    ft = next(i for i, f in enumerate(fs) if f["tag"] is not None)
+    upos = b"".join(R.field_bytes(layout, f, f["ty"], uv[f["name"]]) for f in fs[:ft])
+    groups = [(f, R.field_bytes(layout, f, f["ty"], uv[f["name"]])) for f in fs[ft:]]
+    return upos, [(f, gb) for f, gb in groups if gb]
